@@ -209,6 +209,9 @@ def search(ctx):
     for i in range(n):
         try:
             m = float(rng.uniform(1.05, 2.5))
+            if i % 3 == 1 or i % 8 == 0:
+                # absorbing spheres (holopy's convention, as for Mie: positive imaginary part), weakly to strongly
+                m = complex(m, float(np.exp(rng.uniform(np.log(1e-4), np.log(0.5)))))
             x = float(np.exp(rng.uniform(np.log(0.1), np.log(50.0 if ctx.tier != "quick" else 25.0))))
             kz = float(rng.uniform(-150, 300))
             la = float(rng.uniform(0.1, 1.4))
@@ -219,13 +222,13 @@ def search(ctx):
             krho = rng.uniform(0, 25 if i % 4 else 80, size=npt)
             az = rng.uniform(0, 2 * math.pi, size=npt)
             det = detector_points(x=sc.center[0] + krho / K * np.cos(az), y=sc.center[1] + krho / K * np.sin(az), z=0.0)
-            info = dict(kind="agree", m=m, x=x, kz=kz, lens_angle=la, pol_angle=pa, krho=krho.tolist(), az=az.tolist())
+            info = dict(kind="agree", m=cx(m), x=x, kz=kz, lens_angle=la, pol_angle=pa, krho=krho.tolist(), az=az.tolist())
             kcase = i % 3
             F = lambda th: calc_field(det, sc, illum_polarization=pol, theory=th, **opt).transpose("point", "vector").values
             fm = F(MieLens(lens_angle=la))
             scale = max(1e-300, float(np.abs(fm).max()))
             if kcase == 0:
-                ctx.tried("mielens-vs-lens", (round(m, 4), round(x, 4), round(kz, 2), round(la, 3), round(pa, 3)))
+                ctx.tried("mielens-vs-lens", (round(m.real, 4), round(m.imag, 6), round(x, 4), round(kz, 2), round(la, 3), round(pa, 3)))
                 fl_, orders, ch = lens_converged(det, sc, la, pol, opt, float(krho.max()), kz, x)
                 if not (ch <= 1e-5):
                     ctx.violation("C08:lens-refinement", "refining an already resolved Lens quadrature (to orders %r) still changes the field by %.3g of the peak" % (orders, ch), dict(orders=list(orders), **info))
